@@ -384,9 +384,16 @@ func replayEdits(rep *run.Report, batch []editCase, prop string, serModes int) {
 				if back != nil {
 					deserDst[w] = back
 				}
-				if blobW != nil && blobBytes != nil && (avx512 || !run.HasAVX512) && k == 0 {
+				if blobW != nil && blobBytes != nil && back != nil && serr == nil && (avx512 || !run.HasAVX512) && k == 0 {
+					// for the noasm reader: the text THIS build marshals from the deserialized tape (which was just read back and
+					// compared with the specification's documents); the noasm build must produce the same text from the same bytes
+					bit := back.Iter()
+					btext, berr := bit.MarshalJSON()
+					if berr != nil {
+						btext = []byte{0}
+					}
 					blobMu.Lock()
-					fmt.Fprintf(blobW, "%s %s\n", run.Hex(blobBytes), run.Hex(c.text))
+					fmt.Fprintf(blobW, "%s %s\n", run.Hex(blobBytes), run.Hex(btext))
 					blobMu.Unlock()
 				}
 			}
